@@ -224,6 +224,15 @@ class C04(Prop):
             rng.choice([3, 5, 8, 12, 16])
         ops = gen.gen_history(rng, cfg, n, self.REQS, self.WEIGHTS,
                               quiet_p=0.6)
+        for op in ops:
+            if op['op'] == 'req' and op['cmd'] == 'set' and \
+                    rng.random() < 0.12:
+                # a command line no worker can be built from (unbalanced
+                # quote): every later spawn of that watcher fails before the
+                # fork, with a ValueError instead of an exec error
+                wc = cfg['watchers'][op['w'] % len(cfg['watchers'])]
+                op['props'] = {'options': {
+                    'cmd': 'worker --marker=%s "unbalanced' % wc['marker']}}
         if rng.random() < 0.15:
             gen.add_on_demand(rng, cfg, ops)
         return {'cfg': cfg, 'ops': ops}
